@@ -1,12 +1,19 @@
-(* Proofs/C13P.v — vocabulary of the C13 statement, the concrete witnesses (each evaluated by
-   vm_compute on the model; the same bytes are replayed on the implementation from corpus/C13), and
-   the assembly of the guarded theorem from Reply*.v. *)
+(* Proofs/C13P.v — vocabulary of the C13 statement, concrete witnesses (each evaluated by vm_compute
+   on the model; the same bytes are replayed on the implementation from corpus/C13), and the parts
+   of the theorems of Props/C13.v assembled from Reply*.v. *)
 From Coq Require Import String ZifyBool.
 From PV Require Import Base.Bytes Base.BytesLemmas Base.Res Base.Proto Base.PyStr.
 From PV Require Import Gen.Tables Gen.Types Gen.Status Gen.Consts Gen.ReplyTables.
 From PV Require Import Model.EnumMapDefs Model.EnumMap Model.Reply Spec.ReplyReader.
-From PV Require Import Proofs.EnumMapP Proofs.ReplyBase Proofs.ReplyValid Proofs.ReplyError Proofs.ReplyMulti Proofs.ReplyCalls.
+From PV Require Import Proofs.EnumMapP Proofs.ReplyBase Proofs.ReplyValid Proofs.ReplyError Proofs.ReplyMulti Proofs.ReplySubErr Proofs.ReplyCalls.
 Open Scope Z_scope.
+
+(* exceptions.py (regenerated): every exception class the model calls "library" derives from
+   PycommError, and BufferEmptyError from DataError *)
+Lemma library_exceptions_derive :
+  forallb (fun '(_, lib, _) => lib) library_exceptions = true
+  /\ existsb (fun '(n, _, de) => text_eqb n (T "BufferEmptyError") && de) library_exceptions = true.
+Proof. split; reflexivity. Qed.
 
 Definition bytes_list_ok (l : list bytes) : Prop := Forall (fun r => bytes_ok r = true) l.
 
@@ -20,18 +27,14 @@ Definition reply_kind (c : call) : option rkind :=
   end.
 Definition one_request (c : call) : bool :=
   match c with CRead _ | CWrite _ | CGeneric _ _ => true | _ => false end.
-
-(* an error reply that carries no service data (multi-service: the request as a whole was rejected) *)
-Definition no_service_data (raw : bytes) : bool :=
-  wf_header_only_error raw
-  || match byte_at 49 raw with Some n => Z.of_nat (length raw) =? 50 + 2 * n | None => false end.
 Definition status_is_6 (raw : bytes) : bool := match byte_at 48 raw with Some g => g =? 6 | None => false end.
 
 (* "well-formed error reply" for the request of call c *)
 Definition wf_error_for (c : call) (k : rkind) (raw : bytes) : bool :=
   wf_error k raw
   && match c with
-     | CMulti _ => no_service_data raw
+     | CMulti reqs => no_service_data raw && match reqs with [] => false | _ => true end
+                                           (* with service data the per-service words decide *)
      | CReadFrag _ => negb (status_is_6 raw)      (* status 6 asks the fragmented read to continue *)
      | _ => true
      end.
@@ -61,64 +64,64 @@ Definition w_mixed : bytes :=
 Definition w_err : bytes := [112; 0; 28; 0] ++ hdr46 ++ [8; 0; 1; 0; 204; 0; 255; 1; 5; 33].
 (* Read Tag success: DINT 42 *)
 Definition w_read : bytes := [112; 0; 32; 0] ++ hdr46 ++ [12; 0; 1; 0; 204; 0; 0; 0; 196; 0; 42; 0; 0; 0].
+(* multi-service request rejected with general status 5 and TWO additional-status words 0x0080 0x0000 *)
+Definition w_ext2 : bytes := [112; 0; 30; 0] ++ hdr46 ++ [10; 0; 1; 0; 138; 0; 5; 2; 128; 0; 0; 0].
 
 Definition two_reads : list sreq := [SRead dint_dec; SRead dint_dec].
+Definition two_writes : list sreq := [SWrite (VInt 1); SWrite (VInt 2)].
 
-Lemma wit_stopiteration : run_call (CMulti two_reads) [w_count0] = RErr (Foreign StopIteration) [].
-Proof. vm_compute. reflexivity. Qed.
-Lemma wit_typeerror : run_call (CReadFrag dint_dec) [w_hdr] = RErr (Foreign TypeError) none_not_subscriptable.
-Proof. vm_compute. reflexivity. Qed.
-Lemma wit_multi_toperr : wf_error_for (CMulti two_reads) KUnit w_toperr = true
-  /\ run_call (CMulti two_reads) [w_toperr] = RErr BufferEmpty [].
-Proof. vm_compute. split; reflexivity. Qed.
-Lemma wit_multi_hdr : wf_error_for (CMulti two_reads) KUnit w_hdr = true
-  /\ exists m, run_call (CMulti two_reads) [w_hdr] = RErr DataError m.
-Proof. split; [vm_compute; reflexivity|eexists; vm_compute; reflexivity]. Qed.
-Lemma wit_frag_hdr : wf_error_for (CReadFrag dint_dec) KUnit w_hdr = true.
-Proof. vm_compute. reflexivity. Qed.
-Lemma wit_encap_ignored :
-  run_call (CMulti two_reads) [w_encap]
-  = ROk (OTags [{| t_value := Some (VInt 7); t_error := None |}; {| t_value := Some (VInt 9); t_error := None |}])
-  /\ multi_sub_success w_encap 0 = false /\ encap_status w_encap = Some 1.
-Proof. vm_compute. repeat split; reflexivity. Qed.
 Lemma wit_ok : bytes_ok w_count0 = true /\ bytes_ok w_hdr = true /\ bytes_ok w_toperr = true /\ bytes_ok w_encap = true
-  /\ bytes_ok w_mixed = true /\ bytes_ok w_err = true /\ bytes_ok w_read = true.
+  /\ bytes_ok w_mixed = true /\ bytes_ok w_err = true /\ bytes_ok w_read = true /\ bytes_ok w_ext2 = true.
 Proof. vm_compute. repeat split; reflexivity. Qed.
+
+(* the replies that used to escape as StopIteration / TypeError / BufferEmptyError, or pass under an
+   encapsulation error, now fail their requests with a text (fix: commits aa378e8, 3c1cf16) *)
+Lemma wit_fixed_count0 :
+  run_call (CMulti two_reads) [w_count0]
+  = ROk (OTags [{| t_value := None; t_error := Some no_reply_received |}; {| t_value := None; t_error := Some no_reply_received |}]).
+Proof. vm_compute. reflexivity. Qed.
+Lemma wit_fixed_frag_hdr :
+  run_call (CReadFrag dint_dec) [w_hdr] = ROk (OTags [{| t_value := None; t_error := Some fragments_failed |}]).
+Proof. vm_compute. reflexivity. Qed.
+Lemma wit_fixed_toperr : exists e,
+  run_call (CMulti two_reads) [w_toperr] = ROk (OTags [{| t_value := None; t_error := Some e |}; {| t_value := None; t_error := Some e |}])
+  /\ names_status service_status extend_codes 8 None e = true.
+Proof. eexists. vm_compute. split; reflexivity. Qed.
+Lemma wit_fixed_encap : exists e,
+  run_call (CMulti two_reads) [w_encap] = ROk (OTags [{| t_value := None; t_error := Some e |}; {| t_value := None; t_error := Some e |}]).
+Proof. eexists. vm_compute. reflexivity. Qed.
+
+(* what the code still does: the additional status of an error reply is read as service data *)
+Lemma wit_ext2 : wf_error_for (CMulti two_writes) KUnit w_ext2 = true
+  /\ exists e, run_call (CMulti two_writes) [w_ext2]
+               = ROk (OTags [{| t_value := Some (VInt 1); t_error := None |}; {| t_value := Some (VInt 2); t_error := Some e |}]).
+Proof. split; [vm_compute; reflexivity|eexists; vm_compute; reflexivity]. Qed.
 
 (* ---------------------------------------------------------------- fragmented read: a well-formed error reply ends it *)
 Lemma failed_fragments_tag v : tag_of_response KUnit failed_fragments v = ROk {| t_value := None; t_error := Some fragments_failed |}.
 Proof. reflexivity. Qed.
 
 Lemma read_frag_wf_error dec raw rest : bytes_ok raw = true ->
-  wf_cip_reply unit_layout raw = true -> spec_success true unit_layout raw = false -> status_is_6 raw = false ->
+  wf_error KUnit raw = true -> status_is_6 raw = false ->
   all_falsy_with_text (run_call (CReadFrag dec) (raw :: rest)).
 Proof.
-  intros Hok Hwf Hns H6.
-  destruct (error_text_unit raw Hok Hwf Hns) as (e & He & Hne & _).
-  assert (Hnd : no_data raw = false).
-  { unfold wf_cip_reply in Hwf. destruct (encap_status raw); [|discriminate].
-    cbn [l_extsize l_data unit_layout] in Hwf. destruct (byte_at 49 raw) as [n|] eqn:E49; [|discriminate].
-    apply andb_true_iff in Hwf as [Hrb Hlen]. unfold reply_bit in Hrb. cbn [l_svc unit_layout] in Hrb.
-    unfold no_data. destruct (byte_at 46 raw) as [s|]; [|discriminate].
-    assert (H48 : exists g, byte_at 48 raw = Some g).
-    { unfold byte_at in *. destruct (nth_error raw 48) eqn:E; [eauto|]. apply nth_error_None in E.
-      apply nth_error_some_lt in E49. lia. }
-    destruct H48 as [g ->]. lia. }
-  cbn [run_call]. unfold read_fragmented. cbn [read_frag_loop].
-  pose proof (parse_read_frag_spec raw Hok) as Hp. rewrite Hnd in Hp. destruct Hp as (f & -> & Hf).
-  rewrite Hf, (opt_is_6 raw Hok Hnd). unfold status_is_6 in H6.
-  assert (Hm : match byte_at 48 raw with Some 6 => true | _ => false end = false).
-  { destruct (byte_at 48 raw) as [g|]; [|reflexivity]. destruct g as [|p|p]; try reflexivity.
-    destruct p as [p|p|]; try reflexivity; destruct p as [p|p|]; try reflexivity; destruct p as [p|p|]; try reflexivity.
-    discriminate. }
-  rewrite Hm, He.
-  assert (Hv : is_valid KUnit (parse_unit raw) = false) by now rewrite (unit_valid_iff raw Hok).
-  cbn [app forallb]. rewrite Hf, Hv. cbn [andb]. rewrite failed_fragments_tag. cbn [tag_out].
+  intros Hok Hw H6.
+  destruct (error_of_wf_error KUnit raw (or_introl eq_refl) Hok Hw) as (Hv & e & He & Hne). cbn [parse_k] in Hv, He.
+  assert (Hst : opt_is (r_service_status (parse_unit raw)) INSUFFICIENT_PACKETS = false).
+  { destruct (parse_cip_spec 46 48 50 raw Hok) as (_ & _ & _ & _ & P5). fold (parse_unit raw) in P5.
+    unfold status_is_6, byte_at in H6.
+    destruct (nth_error raw 46) as [s|]; [|destruct P5 as (_ & _ & ->); reflexivity].
+    destruct (nth_error raw 48) as [g|]; [|destruct P5 as (_ & _ & ->); reflexivity].
+    destruct (128 <=? s); [destruct P5 as (_ & -> & _)|destruct P5 as (_ & _ & ->); reflexivity].
+    unfold opt_is, INSUFFICIENT_PACKETS. exact H6. }
+  cbn [run_call]. unfold read_fragmented. cbn [read_frag_loop]. cbv zeta.
+  rewrite (parse_read_frag_r raw), Hst, He. cbn [app forallb]. rewrite (parse_read_frag_r raw), Hv. cbn [andb].
+  rewrite failed_fragments_tag. cbn [tag_out].
   eexists. split; [reflexivity|]. split; [discriminate|]. constructor; [|constructor].
   split; [reflexivity|]. eexists. split; [reflexivity|]. discriminate.
 Qed.
 
-(* ================================================================ the parts of the guarded statement *)
+(* ================================================================ the parts of the theorems *)
 Lemma error_text_k k raw : k = KUnit \/ k = KRR -> bytes_ok raw = true ->
   wf_cip_reply (layout_k k) raw = true -> spec_success (partial_k k) (layout_k k) raw = false ->
   exists t, error k (parse_k k raw) = ROk (Some t) /\ t <> []
@@ -129,9 +132,8 @@ Proof.
   intros Hk. apply error_text_gen. destruct Hk as [->| ->]; auto.
 Qed.
 
-Lemma library_only_guarded c replies : bytes_list_ok replies -> call_guard c replies = false ->
-  rm_is_library (run_call c replies) = true.
-Proof. intros Hok Hg. apply nf_library. now apply calls_library_only. Qed.
+Lemma library_only c replies : rm_is_library (run_call c replies) = true.
+Proof. apply nf_library, calls_library_only. Qed.
 
 Lemma one_reply_inv f raw rest t : one_reply (raw :: rest) f = ROk (OTags [t]) -> f raw = ROk t.
 Proof. unfold one_reply. destruct (f raw); [|discriminate]. now intros [= ->]. Qed.
@@ -152,22 +154,15 @@ Qed.
 
 Lemma success_multi reqs raw rest tags i t : bytes_ok raw = true ->
   run_call (CMulti reqs) (raw :: rest) = ROk (OTags tags) -> nth_error tags i = Some t -> tag_truthy t = true ->
-  exists w, multi_sub_words raw i = Some w /\ sub_words_ok w = true.
+  multi_sub_success raw i = true.
 Proof.
   intros Hok Hr Hi Ht. cbn [run_call] in Hr. unfold tags_out in Hr.
   destruct (rw_multi reqs raw) as [l|] eqn:E; [|discriminate]. injection Hr as ->.
   exact (multi_truthy reqs raw tags i t Hok E Hi Ht).
 Qed.
-Lemma success_multi_encap reqs raw rest tags i t : bytes_ok raw = true -> encap_status raw = Some 0 ->
-  run_call (CMulti reqs) (raw :: rest) = ROk (OTags tags) -> nth_error tags i = Some t -> tag_truthy t = true ->
-  multi_sub_success raw i = true.
-Proof.
-  intros Hok He Hr Hi Ht. destruct (success_multi reqs raw rest tags i t Hok Hr Hi Ht) as (w & Hw & Hs).
-  unfold multi_sub_success. now rewrite He, Hw, Hs.
-Qed.
 
 Lemma wf_errors_guarded c k raw rest : reply_kind c = Some k -> bytes_ok raw = true -> wf_error_for c k raw = true ->
-  match c with CMulti _ => true | CReadFrag _ => wf_header_only_error raw | _ => false end = false ->
+  match c with CMulti _ => multi_ext_guard raw | _ => false end = false ->
   all_falsy_with_text (run_call c (raw :: rest)).
 Proof.
   intros Hk Hok Hw Hg. unfold wf_error_for in Hw. apply andb_true_iff in Hw as [Hw Hc].
@@ -175,9 +170,11 @@ Proof.
   { intros f (t & Hf & Ht). unfold one_reply. rewrite Hf. exists [t]. split; [reflexivity|]. split; [discriminate|]. now constructor. }
   destruct c as [dec|dec|v|v n|reqs|k0 dt| |f c]; try discriminate; cbn [run_call].
   - injection Hk as <-. apply Hone, read_wf_error; assumption.
-  - injection Hk as <-. unfold wf_error in Hw. rewrite Hg, orb_false_r in Hw. apply andb_true_iff in Hw as [Hw1 Hw2].
-    apply negb_true_iff in Hw2. apply negb_true_iff in Hc.
-    exact (read_frag_wf_error dec raw rest Hok Hw1 Hw2 Hc).
+  - injection Hk as <-. apply negb_true_iff in Hc. exact (read_frag_wf_error dec raw rest Hok Hw Hc).
   - injection Hk as <-. apply Hone, write_wf_error; assumption.
+  - injection Hk as <-. apply andb_true_iff in Hc as [Hn Hne].
+    assert (Hreqs : reqs <> []) by (destruct reqs; [discriminate|discriminate]).
+    destruct (multi_wf_error reqs raw Hreqs Hok Hw Hn Hg) as (tags & -> & Ht1 & Ht2).
+    exists tags. auto.
   - destruct k0; try discriminate; injection Hk as <-; apply Hone, generic_wf_error; auto.
 Qed.
